@@ -241,6 +241,15 @@ class StartRequestMonitor(Monitor):
                 del pend[namespec]
 
     def on_publication(self, inst, ptype, body):
+        if ptype.name == 'PROCESS' and not body.get('forced') and body.get('identifier') == inst.identifier \
+                and int(body['state']) in RUNNING_LIKE:
+            # the target has acted upon the request: from now on the process is either running load or a start that
+            # ended (a BACKOFF .. FATAL sequence can take place within one step, before the life cycle below runs)
+            namespec = f"{body['group']}:{body['name']}"
+            for pend in self.pending.values():
+                entry = pend.get(namespec)
+                if entry is not None and entry[0] == inst.idx:
+                    del pend[namespec]
         if ptype.name == 'PROCESS' and body.get('forced'):
             # a start given up by the requester is not pending any more
             pend = self.pending.get((inst.idx, inst.incarnation))
